@@ -274,13 +274,18 @@ theorem commit_verifies (height round : Int) (vals : List Validator)
   have hbvlen : vs.votes.length = bv.votes.length := by rw [hinv.len, hinv.entryLen _ _ hl]
   -- every primary slot passes the per-precommit checks of VerifyCommit
   have hslots : ∀ (j : Nat) (v : Vote), vs.votes[j]? = some (some v) →
-      v.height = height ∧ v.round = round ∧ v.type = 2 ∧ sigokPos (0 + j) v = true := by
+      v.height = height ∧ v.round = round ∧ v.type = 2 ∧ sigokPos (0 + j) v = true ∧
+      (repaired.slotCheck = true → SlotOk vals 0 j v) := by
     intro j v hjv
     have g := hinv.slot j v hjv
-    refine ⟨by rw [g.h, hh], by rw [g.r, hr], by rw [g.t, ht], ?_⟩
-    have := hsig _ g.offered rfl
-    have e : v.idx.toNat = j := by have := g.idx; omega
-    simpa [e] using this
+    refine ⟨by rw [g.h, hh], by rw [g.r, hr], by rw [g.t, ht], ?_, ?_⟩
+    · have := hsig _ g.offered rfl
+      have e : v.idx.toNat = j := by have := g.idx; omega
+      simpa [e] using this
+    · intro _
+      refine ⟨by simpa using g.idx, ?_⟩
+      obtain ⟨val, hval, ha⟩ := g.addr
+      exact ⟨val, by rw [← hv]; exact hval, ha⟩
   -- the majority block's votes sit in the primary slots, for exactly `b`
   have hforb : ∀ (j : Nat) (w : Vote), bv.votes[j]? = some (some w) →
       ∃ v', vs.votes[j]? = some (some v') ∧ v'.bid = b := by
@@ -313,9 +318,9 @@ theorem commit_verifies (height round : Int) (vals : List Validator)
       simp only
       obtain ⟨j, hj⟩ := firstPrecommit_some _ _ hfp
       rw [← hvotes] at hj
-      obtain ⟨hfh, hfr, _, _⟩ := hslots j f hj
+      obtain ⟨hfh, hfr, _, _, _⟩ := hslots j f hj
       simp only [hfh, ne_eq, not_true_eq_false, if_false, hfr]
-      rw [← hvotes, tallyCommit_ok sigokPos b height round vs.votes vals 0 0 hlen hslots]
+      rw [← hvotes, tallyCommit_ok repaired.slotCheck sigokPos b height round vs.votes vals 0 0 hlen hslots]
       simp only [Int.zero_add]
       have : tallyB b (powers vals) vs.votes > total vals * 2 / 3 := by omega
       simp [this]
